@@ -251,6 +251,15 @@ def run_special(kind, pid, tier, seed, eng, workdir, log, build):
                     seen_sigs.add(v["signature"])
                 res.setdefault("violations", []).append(v)
                 res.setdefault("counters", {})[f"{tool}_reports"] = 1
+            elif rc is not None and rc < 0 and kind != "miri":
+                import signal as _sig
+                try:
+                    sname = _sig.Signals(-rc).name
+                except Exception:
+                    sname = f"SIG{-rc}"
+                v = _violation(pid, tool, ("process-died-" + sname, f"process killed by {sname} without a sanitizer report", eng["bin"]),
+                               pr["err"], seed, pr["i"], pr["cmd"])
+                res.setdefault("violations", []).append(v)
             elif rc != 0:
                 early = any("stops early" in n for n in res.get("notes", []))
                 if not early:
